@@ -4,12 +4,37 @@ import json, os
 HERE = os.path.dirname(os.path.dirname(os.path.abspath(__file__)))
 props = [json.loads(l) for l in open(os.path.join(HERE, "properties.jsonl"))]
 
+KERN = 'the interpreter that maps op records to API calls (harness/drivers/kernel.py) and TLC are trusted; bounds as listed in the evidence; integer delays only'
 BUILT = {
  "C09": dict(
    technique="TLA+ spec Port.tla model-checked with TLC (tail-drop and RED configs) + TLC trace validation of the real Port/REDPort/PortMonitor on TLC-emitted and random lattice workloads",
    text="Exhaustive TLC run of the timed port specification (all arrival patterns within the stated bounds, three limit modes, rate 0, RED with scripted draws) checks the departure law, occupancy bound, counter identity, byte accounting and the RED region rules; every emitted workload (sampled in the quick tier) and seeded random larger ones are executed on the real classes and each recorded trace (arrivals, departures, monitor samples, public counters after every event) must be a behaviour of the same specification.",
    note="integer time/size lattice (rate = 8/K); off-lattice float rounding and RED drop frequencies are not decided; TLC and the JSON trace plumbing are trusted",
    design="6/C09"),
+ "C01": dict(
+   technique="TLA+ spec SimKernel.tla model-checked with TLC over all programs within bounds; every emitted program replayed on the real kernel and logs compared; generated larger programs validated by TLC (KernelTrace)",
+   text="The implementation-shaped kernel specification (agenda, event life cycle, callback lists, processes, interrupts) is explored exhaustively with nondeterministic programs (every program of <=3 processes x 2 ops / 2 x 3 over timeouts 0/1/2, shared events, joins, spawns, interrupts, negative delay) with time-order, agenda and life-cycle invariants; each emitted program is executed on the real onl.sim kernel and its complete observable log (resumptions with instants and values, probe callbacks of every event, refused calls, run() outcome) must equal the specification's; larger on-the-fly generated programs are validated in the other direction by TLC.",
+   note=KERN, design="6/C01"),
+ "C02": dict(
+   technique="TLA+ spec SimKernel.tla model-checked with TLC (alphabet: succeed/fail, several waiters, catching/non-catching yields, child return/raise, double triggers); emitted programs replayed on the real kernel; generated programs validated by TLC",
+   text="Same machinery as C01 with the alphabet of C02: SingleWait, LifeCycle, ProbeOnce and DeliveredIsEventOutcome are checked on every reachable state; the logs compared include the value or exception (type and args) received at every yield, the outcome of every process event and the exception escaping run().",
+   note=KERN, design="6/C02"),
+ "C03": dict(
+   technique="TLA+ spec SimKernel.tla with top-level plans (run / run(until=number) / run(until=event) / step) model-checked with TLC; emitted programs-with-plans replayed; generated ones validated by TLC, re-executed under three hash seeds and against the uninterrupted run",
+   text="TLC enumerates every plan of <=3 stop commands over every program within the bounds (stop instants coinciding with due events, until <= now, until-events already processed); logs incl. every return value / exception of run() and peek() after every step() must equal the specification's. Generated programs with longer plans are validated by TLC, re-run in separate interpreters under PYTHONHASHSEED 0/1/4242 (identical logs required) and compared with the same processes under uninterrupted run() calls (process-visible log must be a prefix).",
+   note=KERN + "; hash seeds are sampled, not quantified", design="6/C03"),
+ "C04": dict(
+   technique="TLA+ spec SimKernel.tla model-checked with TLC (alphabet: interrupt, spawn, sleep, catching/non-catching yields, raise); emitted programs replayed on the real kernel; generated programs validated by TLC",
+   text="Every program of <=3 processes x 2 ops / 2 x 3 in which processes interrupt each other (victims ignoring, re-waiting, waiting for something else, terminating, raising; dead and self targets) is executed on the real kernel; the log pins the instant and cause of every Interrupt, the resumption of victims and co-waiters and the RuntimeError at refused calls. SingleWait and FirstResumeIsInit are invariants of the model.",
+   note=KERN, design="6/C04"),
+ "C05": dict(
+   technique="TLA+ spec SimKernel.tla model-checked with TLC (alphabet: all_of/any_of over timeouts, events, processes, conditions); emitted programs replayed; generated condition trees validated by TLC, with the OrphanNested deviation recognising known finding F19b",
+   text="Every program of 2 processes x 4 ops building conditions (<=2-3 operands, nesting, empty lists, processed operands, failing operands) is executed on the real kernel and the resume instants, ConditionValue key order and exceptions compared with the specification (CondPendingMeansUnmet is an invariant of the model). Generated programs with deeper trees and conditions without probe callbacks are validated by TLC; traces explained only by the named deviation are reported as KNOWN-FINDING F19b.",
+   note=KERN, design="6/C05"),
+ "C19": dict(
+   technique="TLA+ spec Timer.tla model-checked with TLC over all stop/restart histories within bounds + TLC trace validation of the real Timer on emitted and random histories",
+   text="Exhaustive TLC run over all histories of <=4 outside stop/restart calls and scripted calls from the timer's own callback (before, exactly at and after expiries, one-shot and auto-restart, T/tau in 1..3) checks FiresExactlyAtExpiry, OncePerExpiry, StoppedNeverFires, RestartRebases, NeverRaises, ArgsPassed; emitted and random longer histories are replayed on the real Timer (callers created before and after the timer so both same-instant orders occur; scalar and list args) and each recorded trace must be a behaviour of the specification.",
+   note="dyadic time lattice; re-arming an already expired one-shot timer is left open as the property does", design="6/C19"),
  "C12": dict(
    technique="TLA+ spec Sched.tla (policy ANY) model-checked with TLC + TLC trace validation of all six real schedulers and the Monitor",
    text="Exhaustive TLC run of the timed scheduler specification with the selection rule left open checks, over all workloads within the bounds, the start law (k-th transmission starts at max(end of k-1, k-th arrival) and lasts 8*size/rate: work-conserving, non-preemptive, rate-exact), per-flow FIFO, exactly-once, counter exactness; emitted and seeded random workloads (bursts, arrivals at transmission ends, idle gaps, several flows per class) are executed on the real SP/WFQ/VC/DRR/RR/WRR and each recorded trace (taps, size()/byte_size()/total_packets/packet_in_service after every action, Monitor samples) must be a behaviour of that specification.",
